@@ -12,6 +12,7 @@
  *   build <flags> <ident|-> <blockalign> <style> <tree>      flags: 1 with_size, 2 no clustering, 4 direct create_buffer root
  *   partial <cut> <flags> <ident|-> <blockalign> <style> <tree>   stop after <cut> API calls, leaving everything open
  *   faulta <k> <rep> ... / faulte <k> <rep> ...   like build; the k-th (and, rep=1, every later) alloc / emit call fails
+ *   uenter <size>                           enter a user frame and leave it open
  *   mem                                     footprint
  */
 #include "hcommon.h"
@@ -274,6 +275,7 @@ static size_t footprint(void)
 {
     size_t s = 0; int i;
     for (i = 0; i < FLATCC_BUILDER_ALLOC_BUFFER_COUNT; ++i) s += B->buffers[i].iov_len;
+    s += custom ? E.capacity : ((flatcc_emitter_t *)flatcc_builder_get_emit_context(B))->capacity;
     return s;
 }
 
@@ -325,6 +327,20 @@ int main(void)
     while (h_getline()) {
         int n = h_split(toks, 1 << 16); const char *op = toks[0];
         if (!strcmp(op, "fresh") && n >= 2) { new_builder(atoi(toks[1])); printf("ok\n"); continue; }
+        if (!strcmp(op, "alloc") && n >= 4) {   /* flatcc_builder_default_alloc growth policy: alloc <hint> <len0> <r1,r2,..> */
+            flatcc_iovec_t b; char *p = toks[3]; int hint = atoi(toks[1]); size_t l0 = (size_t)atol(toks[2]);
+            b.iov_base = l0 ? malloc(l0) : 0; b.iov_len = l0;
+            while (p && *p) {
+                char *q = strchr(p, ','); size_t r = (size_t)atol(p);
+                int rc = flatcc_builder_default_alloc(0, &b, r, 0, hint);
+                printf("%s%zu", rc ? "!" : "", b.iov_len);
+                if (!q) break;
+                putchar(','); p = q + 1;
+            }
+            putchar('\n');
+            if (b.iov_base) free(b.iov_base);
+            continue;
+        }
         if (!have_B) new_builder(1);
         if (!strcmp(op, "opt") && n >= 3) {
             flatcc_builder_set_vtable_cache_limit(B, (size_t)atol(toks[1])); flatcc_builder_set_max_level(B, atoi(toks[2]));
@@ -336,7 +352,13 @@ int main(void)
             elog_len = 0; if (elog) elog[0] = 0;
             printf("%s\n", r ? "fail" : "ok"); continue;
         }
-        if (!strcmp(op, "mem")) { printf("mem %zu live=%ld\n", footprint(), live_blocks); continue; }
+        if (!strcmp(op, "uenter") && n >= 2) {   /* a user frame left open (what an abandoned JSON union parse leaves behind) */
+            size_t h = flatcc_builder_enter_user_frame(B, (size_t)atol(toks[1]));
+            printf("%s\n", h ? "ok" : "fail"); continue;
+        }
+        if (!strcmp(op, "mem")) { int i; printf("mem %zu live=%ld", footprint(), live_blocks);
+            for (i = 0; i < FLATCC_BUILDER_ALLOC_BUFFER_COUNT; ++i) printf(" %zu", B->buffers[i].iov_len);
+            printf(" uf=%zu\n", (size_t)B->user_frame_end); continue; }
         if (!strcmp(op, "clear")) {
             flatcc_builder_clear(B); if (custom) flatcc_emitter_clear(&E); have_B = 0;
             printf("cleared live=%ld\n", live_blocks); continue;
